@@ -116,7 +116,10 @@ def case_st(draw):
     term = draw(st.sampled_from(["clean", "clean", "clean", "fin", "reset", "stall", "trickle"]))
     term_at = n if draw(st.integers(0, 3)) else draw(st.integers(0, n))
     return {"stream": s["stream"], "labels": s["labels"], "cuts": cuts, "term": term, "term_at": term_at,
-            "op": draw(st.sampled_from(["get", "get", "upload"]))}
+            "op": draw(st.sampled_from(["get", "get", "upload"])),
+            # client lane only: trust-on-first-use on (the request goes out after the pin check) or off; and how many bytes
+            # of its answer an eager server sends before it has even read the request
+            "tofu": draw(st.booleans()), "early": draw(st.sampled_from([0, 0, 0, 1, 3, 16, 10**6]))}
 
 
 # --------------------------------------------------------------------------
@@ -210,6 +213,21 @@ def judge(case, outcome, exp, t_info):
             return viol("response-instead-of-error", f"got {outcome}", **info)
         return ok(**info)
     if outcome[0] == "exc":
+        D_ = s2b(case["stream"])
+        if case.get("early") and case.get("tofu") and min(case["early"], len(D_)) >= D_.find(b"\r\n") + 2 > 1 and \
+                exp[0] == "resp" and not (20 <= exp[1] <= 29):
+            # the server sent a complete non-2x answer before the client had sent anything (the request waits for the pin
+            # check); the client hangs up on such a header, so the request can no longer be sent: either outcome is fine
+            return grey("answered-before-request", **info)
+        if case.get("early") and exp[0] == "resp" and exp[3] is None and len(D_) > D_.find(b"\r\n") + 2:
+            # an eager server that keeps sending after a non-2x header while the client is already closing: the TLS layer
+            # may report "application data after close notify" before the call is resolved - a malformed peer, either
+            # outcome names what happened
+            return grey("eager-server-sent-data-after-non-2x-header", **info)
+        if case.get("early") and case.get("term") in ("reset", "fin"):
+            # an eager server that also cuts the connection: whether the client's own close or the peer's reset is seen
+            # first is a race; the statement allows either outcome when the server resets
+            return grey("eager-server-cut-the-connection", **info)
         return viol("error-instead-of-response", f"expected {str(exp)[:80]}, got {outcome}", **info)
     if outcome != exp:
         return viol("unfaithful-response", f"expected {str(exp)[:120]}, got {str(outcome)[:120]}", **info)
@@ -300,8 +318,9 @@ def run_client(case: dict):
     async def scenario(loop):
         net = memnet.MemNet()
         net.install(loop)
+        early = min(case.get("early", 0), len(D))
         script = [("wait_request", 2.0)]
-        for ch in _chunks(D, case["cuts"]):
+        for ch in _chunks(D[early:], [c - early for c in case["cuts"] if c > early]):
             script.append(("send", ch))
             script.append(("sleep", 0.01))
         t_close = [None]
@@ -314,9 +333,16 @@ def run_client(case: dict):
             script.append(("stall",))
         else:
             script.append({"clean": ("close",), "fin": ("fin",), "reset": ("reset",), "stall": ("stall",)}[case["term"]])
-        peer = memnet.ScriptedPeer(certs.get("ec-a"), script)
+        import ssl as _ssl
+
+        v12 = {"minv": _ssl.TLSVersion.TLSv1_2, "maxv": _ssl.TLSVersion.TLSv1_2} if early else {}
+        peer = memnet.ScriptedPeer(certs.get("ec-a"), script, **v12)
+        peer.early_data = D[:early]  # an eager TLS 1.2 server: these bytes travel with its Finished
         net.add("h", 1965, peer)
-        client = GeminiClient(timeout=TIMEOUT, trust_on_first_use=False)
+        if case.get("tofu"):
+            client = GeminiClient(timeout=TIMEOUT, tofu_db_path=Path(tofu_dir) / "tofu.db")
+        else:
+            client = GeminiClient(timeout=TIMEOUT, trust_on_first_use=False)
         t0 = loop.time()
         try:
             if case["op"] == "get":
@@ -333,7 +359,15 @@ def run_client(case: dict):
         marks = [e[1] for e in (conn.events if conn else []) if e[0] == "mark"]
         return outcome, t1 - t0, (t1 - marks[0]) if marks else None
 
-    outcome, dur, since_close = vloop.run(scenario, horizon=10000)
+    from vlib import scratch
+
+    tofu_dir = scratch.subdir("c13-tofu")
+    try:
+        outcome, dur, since_close = vloop.run(scenario, horizon=10000)
+    finally:
+        import shutil
+
+        shutil.rmtree(tofu_dir, ignore_errors=True)
     info = {"duration": dur, "since_close": since_close}
     o2 = outcome if outcome[0] == "resp" or outcome == ("exc", "TimeoutError") else ("exc",)
     if exp[0] == "pending" and outcome == ("exc", "TimeoutError"):
